@@ -38,8 +38,12 @@ func newSchedGen(r *RNG, tier string, profile string) *schedGen {
 	// whole calls; no call then overlaps a collector mutation (known finding D18 cannot mask what the window exposes). Values keep
 	// one length so that a relocated record and its successor differ in offset only.
 	window := profile == "c06" && r.Bool(40)
+	// tail variant of the window: the window lies after the cycle's own flush and before it decides which files are closed; the
+	// file being appended to ends in a superseded record, and the writers fill it and roll over inside the window
+	tail := false
 	fixedLen := 0
 	if window {
+		tail = r.Bool(35)
 		fixedLen = 1 + r.Intn(4)
 		pfs = []int{64, 200}[r.Intn(2)]
 	}
@@ -92,11 +96,13 @@ func newSchedGen(r *RNG, tier string, profile string) *schedGen {
 	case "c12":
 		// rate limiting: burst 0 and a tiny measured flush rate make every writer take the waiting path
 		g.ops = append(g.ops, mkOp("sopen", "bits", strconv.Itoa(bits), "ifs", strconv.Itoa(ifs), "pfs", strconv.Itoa(pfs), "imm", "0",
-			"burst", "0", "rate", "0.000001", "start", "1"))
+			"burst", []string{"0", "0", "40", "80", "150"}[r.Intn(5)], "rate", "0.000001", "start", "1"))
+		// (a burst rate above zero: a writer that measured more than the burst - several operations on one bucket each count a
+		// whole record list - can be waiting for a flush that WRITES less than the burst and therefore measures no rate)
 		nw := 1 + r.Intn(2)
 		for w := 0; w < nw; w++ {
 			var ops []string
-			for j := 0; j < 1+r.Intn(2); j++ {
+			for j := 0; j < 1+r.Intn(3); j++ {
 				k := keys[r.Intn(len(keys))]
 				if r.Bool(80) {
 					ops = append(ops, "put:"+k+":"+val())
@@ -154,6 +160,16 @@ func newSchedGen(r *RNG, tier string, profile string) *schedGen {
 				}
 			}
 			g.ops = append(g.ops, mkOp("sprep", "op", "flush"))
+			if tail || r.Bool(50) {
+				// the file being appended to ends in a record that is already superseded (and is not full yet)
+				last := keys[len(keys)-1]
+				g.ops = append(g.ops, mkOp("sprep", "op", "put:"+last+":"+val()), mkOp("sprep", "op", "flush"))
+				if r.Bool(50) {
+					g.ops = append(g.ops, mkOp("sprep", "op", "rm:"+last))
+				} else {
+					g.ops = append(g.ops, mkOp("sprep", "op", "put:"+last+":"+val()))
+				}
+			}
 		}
 		nt := 2 + r.Intn(2)
 		// owned mode: every key has one writer (key i belongs to thread i mod nt), so that no two mutators of ONE key overlap
@@ -161,10 +177,17 @@ func newSchedGen(r *RNG, tier string, profile string) *schedGen {
 		owned := r.Bool(50) || window
 		for t := 0; t < nt; t++ {
 			var ops []string
-			for j := 0; j < 1+r.Intn(3); j++ {
+			nops := 1 + r.Intn(3)
+			if tail {
+				nops = 3
+			}
+			for j := 0; j < nops; j++ {
 				ki := r.Intn(len(keys))
 				k := keys[ki]
 				c := r.Pick(35, 25, 15, 8, 8)
+				if tail && r.Bool(85) {
+					c = 0
+				}
 				if owned && (c == 0 || c == 2) {
 					if t >= len(keys) {
 						c = 1
@@ -199,7 +222,7 @@ func newSchedGen(r *RNG, tier string, profile string) *schedGen {
 			}
 			g.ops = append(g.ops, mkOp("sthread", "name", fmt.Sprintf("t%d", t), "ops", strings.Join(ops, ",")))
 		}
-		if r.Bool(70) {
+		if r.Bool(70) && !(window && r.Bool(60)) {
 			g.ops = append(g.ops, mkOp("sthread", "name", "f", "ops", "flush"))
 			// two Flush callers (the periodic flusher and an explicit call) overlap each other and the writers
 			if r.Bool(45) {
@@ -214,8 +237,15 @@ func newSchedGen(r *RNG, tier string, profile string) *schedGen {
 				gop = "igc:" + strconv.Itoa(r.Intn(2))
 				points = []string{"index.gc.busy_checked", "index.gc.start"}
 			}
-			g.ops = append(g.ops, mkOp("sthread", "name", "g", "ops", gop))
-			g.window = "g:" + points[r.Intn(len(points))] + ":" + strconv.Itoa(1+r.Intn(3))
+			if tail {
+				gop = "pgc:" + strconv.Itoa([]int{85, 50}[r.Intn(2)])
+				points = []string{"primary.gc.flushed", "primary.gc.fl.applied", "primary.gc.fl.removed", "primary.gc.tgc_done"}
+				g.ops = append(g.ops, mkOp("sthread", "name", "g", "ops", gop))
+				g.window = "g:" + points[r.Intn(len(points))] + ":2"
+			} else {
+				g.ops = append(g.ops, mkOp("sthread", "name", "g", "ops", gop))
+				g.window = "g:" + points[r.Intn(len(points))] + ":" + strconv.Itoa(1+r.Intn(3))
+			}
 		} else if profile == "c06" {
 			var ops []string
 			for j := 0; j < 1+r.Intn(2); j++ {
